@@ -33,6 +33,12 @@ def worker(job):
             m = st["mode"]
             if m == "silent":
                 return None
+            if m == "late_stray_then_exc":
+                # a non-matching datagram late in the wait, then a reply that maps to an exception
+                stray = agent.reply(req, [B.enc_varbind(REQ, B.enc_int(1))], request_id=(req.request_id + 1) & 0x7FFFFFFF)
+                return [(0.5 * st["T"], stray), (0.6 * st["T"], agent.reply(req, st["vbs"]))]
+            if m == "slow_ok":
+                return [(0.65 * st["T"], agent.reply(req, st["vbs"]))]
             if m == "report":
                 return agent.report(req, rigp.REPORT_WRONG_DIGEST, flags=0, mac="empty", encrypt=False)
             return agent.reply(req, st["vbs"])
@@ -73,6 +79,43 @@ def worker(job):
             if o == "get":
                 return drv.call("get", B.oid_text(REQ))
             return drv.call("get_many", [B.oid_text(REQ), B.oid_text(REQ + (1,))])
+        if mode == "history":
+            # one session: a request that ends in an exception after a late stray datagram must not change how the
+            # next replies are mapped - a reply arriving at 0.65 x timeout is still "the matching reply"
+            T = 0.4
+            attempts = []
+            for attempt in range(3):
+                hd = driver.Driver(cfg, agent, timeout=T).create()
+                st.update(mode="ok", vbs=[], T=T)
+                hd.call("open")
+                steps = []
+                for kind in ("nsi", "many", "report" if cfg.version == "v3" else "nso"):
+                    if kind == "many":
+                        st.update(mode="late_stray_then_exc", vbs=[B.enc_varbind(REQ, B.enc_int(1)), B.enc_varbind(REQ + (1,), B.enc_int(2))])
+                    elif kind == "report":
+                        st.update(mode="report")
+                    else:
+                        st.update(mode="late_stray_then_exc", vbs=[B.enc_varbind(REQ, TLV[kind])])
+                    o1 = hd.call("get", B.oid_text(REQ))
+                    serial = 7000 + ci * 100 + attempt * 10 + len(steps)
+                    st.update(mode="slow_ok", vbs=[B.enc_varbind(REQ, B.enc_int(serial))])
+                    o2 = hd.call(op, B.oid_text(REQ)) if op == "get" else hd.call("get_many", [B.oid_text(REQ)])
+                    want = ("ok", serial) if op == "get" else ("ok", {B.oid_text(REQ): serial})
+                    steps.append((kind, o1[0] if o1[0] == "ok" else o1[1]["cls"], o2 == want, repr(o2)[:80]))
+                hd.close()
+                st.update(mode="ok", vbs=[])
+                attempts.append([x for x in steps if not x[2]])
+                if not attempts[-1]:
+                    break
+            res["cases"] += 1
+            res["classes"]["%s:history" % op] = 1
+            if len(attempts) == 3 and all(attempts) and len(res["bad"]) < 60:
+                res["bad"].append({"cfgkey": cfg.key(), "op": op, "mode": mode, "vec": [], "model": [],
+                                   "msg": "after a request that ended in an exception (preceded by a late non-matching datagram) a reply sent at 0.65 x "
+                                   "timeout was not delivered, on 3 fresh sessions out of 3: (first request, its outcome, delivered, got) %s" % attempts})
+            elif len(attempts) > 1:
+                res["inconclusive"].append("history %s: first attempt failed (%s), a repeat passed" % (op, attempts[0][:1]))
+            continue
         if mode == "silent_burst":
             # several unanswered requests in a row on ONE session: each must raise TimeoutError
             for k, o in enumerate(["get", "get", "get_many", "get_many", "get"]):
@@ -193,7 +236,7 @@ def main():
     cfgs = rigp.base_cfgs(("sync", "async"))
     jobs = []
     for ci, cfg in enumerate(cfgs):
-        extra = [{"op": op, "mode": m, "vec": []} for op in ("get", "get_many") for m in (["silent"] * 2 + ["silent_burst"] + (["report"] * 5 if cfg.version == "v3" else []))]
+        extra = [{"op": op, "mode": m, "vec": []} for op in ("get", "get_many") for m in (["silent"] * 2 + ["silent_burst", "history"] + (["report"] * 5 if cfg.version == "v3" else []))]
         cs = list(cases) + extra
         random.Random(a.seed + ci).shuffle(cs)
         for sh in range(2):
